@@ -22,6 +22,10 @@ const (
 	FpWrong
 )
 
+// NominationAttr is the attribute type under which this run's agents carry nomination values (the default of
+// pion/ice unless a check configures both agents otherwise and says so here). One run at a time per process.
+var NominationAttr = stun.AttrType(0xC001)
+
 // MsgSpec describes a STUN message to forge (built with pion/stun only).
 type MsgSpec struct {
 	Class         stun.MessageClass
@@ -91,10 +95,10 @@ func (s MsgSpec) Build() []byte {
 		setters = append(setters, rawAttr{stun.AttrPriority, u32(*s.Priority)})
 	}
 	if s.NominationRaw != nil {
-		setters = append(setters, rawAttr{stun.AttrType(0xC001), s.NominationRaw})
+		setters = append(setters, rawAttr{NominationAttr, s.NominationRaw})
 	} else if s.Nomination != nil {
 		v := *s.Nomination
-		setters = append(setters, rawAttr{stun.AttrType(0xC001), []byte{0, byte(v >> 16), byte(v >> 8), byte(v)}})
+		setters = append(setters, rawAttr{NominationAttr, []byte{0, byte(v >> 16), byte(v >> 8), byte(v)}})
 	}
 	if s.XorAddr != nil {
 		setters = append(setters, &stun.XORMappedAddress{IP: net.IP(s.XorAddr.Addr().AsSlice()), Port: int(s.XorAddr.Port())})
